@@ -219,6 +219,41 @@ def build(scn: Dict[str, Any], form: str, srcs: List[Any], cod: Codec):
 
 
 # ---- running a scenario on the real code --------------------------------------------------------------
+def _sync_observable(s, sync_notifs, later_msgs):
+    """A logged test source that hands over `sync_notifs` from INSIDE subscribe() (what a BehaviorSubject /
+    replaying source / `create` with a direct on_next does) and then behaves like ColdObservable for
+    `later_msgs`; .subscriptions as on the library's test observables."""
+    from reactivex import Observable
+    from reactivex.disposable import CompositeDisposable, Disposable
+    from reactivex.testing.subscription import Subscription
+
+    class SyncObservable(Observable):
+        def __init__(self):
+            super().__init__()
+            self.subscriptions = []
+
+        def _subscribe_core(self, observer, scheduler=None):
+            self.subscriptions.append(Subscription(s.clock))
+            index = len(self.subscriptions) - 1
+            disp = CompositeDisposable()
+
+            def mk(notification):
+                def action(_s, _st=None):
+                    notification.accept(observer)
+                    return Disposable()
+                return action
+            for m in later_msgs:
+                disp.add(s.schedule_relative(m.time, mk(m.value)))
+
+            def dispose():
+                self.subscriptions[index] = Subscription(self.subscriptions[index].subscribe, s.clock)
+                disp.dispose()
+            for nt in sync_notifs:
+                nt.accept(observer)
+            return Disposable(dispose)
+    return SyncObservable()
+
+
 def _clock_kind(sched: str):
     """(scheduler factory, absolute(t), relative(t), back(clock) -> ticks)"""
     if sched == "test":
@@ -244,7 +279,7 @@ def run_scenario(scn: Dict[str, Any], var: Dict[str, Any]) -> Optional[Dict[str,
     from reactivex.testing.coldobservable import ColdObservable
     from reactivex.testing.hotobservable import HotObservable
     from reactivex.testing.recorded import Recorded
-    n, lanes, dsp, dk = scn["n"], scn["lanes"], scn["dsp"], scn.get("dk", 0)
+    n, lanes, dsp, dk, sy = scn["n"], scn["lanes"], scn["dsp"], scn.get("dk", 0), scn.get("sy", False)
     cod = Codec(scn, var["profile"], var.get("salt", 0))
     mk, absolute, relative, back = _clock_kind(var.get("sched", "test"))
     s = mk()
@@ -266,18 +301,22 @@ def run_scenario(scn: Dict[str, Any], var: Dict[str, Any]) -> Optional[Dict[str,
     for i in var["order"]:
         if rep_of[i] != i:
             continue
-        # a notification at the subscription instant itself can only come from a cold source
-        hot = var["kinds"][i] == "h" and not any(e["t"] == 0 for e in lanes[i])
-        msgs = []
+        # a notification at the subscription instant itself can only come from a cold source - or, in a
+        # scenario with synchronous delivery (sy), from a source that emits inside subscribe()
+        at0 = any(e["t"] == 0 for e in lanes[i])
+        hot = var["kinds"][i] == "h" and not at0
+        msgs, sync_notifs = [], []
         for e in lanes[i]:
             t = absolute(T(e["t"])) if hot else relative(T(e["t"]) - 200)
-            if e["k"] == "N":
-                msgs.append(Recorded(t, OnNext(cod.vals[i + 1][e["v"]])))
-            elif e["k"] == "C":
-                msgs.append(Recorded(t, OnCompleted()))
+            nt = OnNext(cod.vals[i + 1][e["v"]]) if e["k"] == "N" else OnCompleted() if e["k"] == "C" else OnError(cod.errs[i + 1])
+            if sy and e["t"] == 0:
+                sync_notifs.append(nt)
             else:
-                msgs.append(Recorded(t, OnError(cod.errs[i + 1])))
-        srcs[i] = HotObservable(s, msgs) if hot else ColdObservable(s, msgs)
+                msgs.append(Recorded(t, nt))
+        if sy and at0:
+            srcs[i] = _sync_observable(s, sync_notifs, msgs)
+        else:
+            srcs[i] = HotObservable(s, msgs) if hot else ColdObservable(s, msgs)
     for i in range(n):
         srcs[i] = srcs[rep_of[i]]
     ys = build(scn, var["form"], srcs, cod)
@@ -366,8 +405,8 @@ def compare(scn: Dict[str, Any], exp: Dict[str, Any], got: Dict[str, Any]) -> Op
     at_sub = scn["op"] == "zip_with_iterable" and scn["par"]["m"] == 0 and len(out) == 1
     for lanes_of, l in got["subs"]:
         name = "lane" + "+".join(map(str, lanes_of))
-        if at_sub and not l:
-            continue
+        if (at_sub or (scn.get("sy") and term_t == 200)) and not l:
+            continue      # the result ended while the sources were still being subscribed: this one need not be
         if len(l) != len(lanes_of):
             return f"subcount:{name}:{len(l)}"
         for sub_t, unsub_t in l:
@@ -445,9 +484,9 @@ def export_runs(ck, runs, timeout=1500, par=4, invs=None, workers=1):
 
 
 def consts(ops, nsrc, maxlen, maxt, *, terms=("C", "E", "U"), nvals=2, disposes=False, faults=False, mode="init",
-           mint=1, dispose_in=0, preset=""):
+           mint=1, dispose_in=0, preset="", sync=False):
     return dict(Preset=preset, Ops=set(ops), NSrc=set(nsrc), MaxLen=maxlen, MinT=mint, MaxT=maxt, Terms=set(terms),
-                NVals=nvals, Disposes=disposes, DisposeIn=dispose_in, Faults=faults, Mode=mode, ScnPath="")
+                NVals=nvals, Disposes=disposes, DisposeIn=dispose_in, Sync=sync, Faults=faults, Mode=mode, ScnPath="")
 
 
 def preset(name):
@@ -461,8 +500,12 @@ PRESETS = {   # mirrors `Families` in OpsCombine.tla (documentation for the evid
                     "sequence_equal(observable) x <=1 element x instants 1..2 x {C,E,U} x 5 comparer codes"],
     "quick": ["5 core operators x 1..2 sources x <=2 elements x instants 1..3 x {C,E,U}",
               "5 core operators x 3 sources x <=1 element x instants 1..2 x {C,U}",
-              "5 core + take_until, skip_until, zip_with_iterable x 2 sources x <=1 element x instants 1..2 x {C,E,U} x "
-              "dispose at instant 1..2 / inside the 1st on_next / never"],
+              "zip, combine_latest, with_latest_from, fork_join x 3 sources x <=2 elements x ONE instant x {C,U}",
+              "take_until, skip_until, zip_with_iterable x 2 sources x <=1 element x instants 1..2 x {C,E,U}",
+              "5 core + 3 growth operators x 2 sources x <=1 element x instants 1..2 x {C,U} x dispose at instant 1..2 / "
+              "inside the 1st on_next / never",
+              "synchronous delivery inside subscribe() (instant 0) x instants 0..1 x <=1 element x {C,U}: 5 core operators x 2 "
+              "sources, with_latest_from x 3 sources"],
 }
 
 
